@@ -807,6 +807,16 @@ func runC03(o *out, thorough bool, r *rng, _ []string) map[string]interface{} {
 			o.count("capacity-sweep-histories")
 		}
 	}
+	// a Message that holds a decoded message with attributes decodes a header-only one, and is built upon
+	for i := 0; i < 60; i++ {
+		hd := header(r.intn(0x4000), 0, r.bytes(12))
+		ops := []string{withBytes([]int{10}, hd), withBytes([]int{4, 0x8030}, r.bytes(r.intn(9))), numsField(3)}
+		if i%2 == 0 {
+			ops = []string{withBytes([]int{10}, hd), numsField(3), withBytes([]int{4, 0x8031}, r.bytes(5))}
+		}
+		o.run(301, append([]string{"0", "-", fHex(r.validMessage(5, 30))}, ops...), true)
+		o.count("header-only-into-a-used-message")
+	}
 	g := &histGen{r: r}
 	n := 2500
 	if thorough {
@@ -1322,6 +1332,19 @@ func runC09(o *out, thorough bool, r *rng, _ []string) map[string]interface{} {
 			emit(withBytes([]int{4, n % 4}, r.bytes(l)))
 			emit(withBytes([]int{7, 420}, r.bytes(l)))
 			o.count("source-literal-lengths")
+		}
+	}
+	// the generic text setter with limits that are no limits: a negative maximum admits nothing
+	for _, lim := range []int{-1, -2, -763, -65536, -1 << 40} {
+		for _, l := range []int{0, 1, 12, 763, 65536 + 12} {
+			m := stun.New()
+			_ = m.Build(stun.BindingRequest, stun.TransactionID)
+			before := append([]byte(nil), m.Raw...)
+			err := stun.TextAttribute(r.bytes(l)).AddToAs(m, stun.AttrSoftware, lim)
+			if err == nil || !bytes.Equal(before, m.Raw) {
+				o.fail("text-setter-accepts-with-negative-limit", fmt.Sprintf("x TextAttribute of %d bytes, AddToAs with maxLen %d: error %v, message changed: %v", l, lim, err, !bytes.Equal(before, m.Raw)))
+			}
+			o.count("negative-text-limits")
 		}
 	}
 	// IP lengths 0..20 for every address setter
